@@ -224,6 +224,11 @@ def run_shard(ctx):
     q = ctx.quick()
     ctx.run_given(gen.messages(L), lambda c: judge(ctx, L, c.type, c.cc, c.enc, c.data, "wellformed"), ctx.share(1200 if q else 20000), name="wellformed")
     ctx.run_given(gen.streams(L, max_pairs=2), lambda c: judge(ctx, L, c.type, c.cc, c.enc, c.data, "stream"), ctx.share(200 if q else 3000), name="streams")
+    # scale: one long stream (hundreds of messages) or one list with ~1000 elements per shard
+    if ctx.shard % 2:
+        ctx.run_given(gen.long_streams(L), lambda c: judge(ctx, L, c.type, c.cc, c.enc, c.data, "long-stream"), 1 if q else 4, name="long-stream")
+    else:
+        ctx.run_given(gen.long_lists(L), lambda c: judge(ctx, L, c.type, c.cc, c.enc, c.data, "long-list"), 1 if q else 4, name="long-list")
     ctx.run_given(arb.faulted_input(L), lambda x: judge(ctx, L, x[0], x[1], x[2], x[3], "faulted"), ctx.share(2500 if q else 40000), name="faulted")
     ctx.run_given(arb.arbitrary_input(L), lambda x: judge(ctx, L, x[0], x[1], x[2], x[3], x[4]), ctx.share(1500 if q else 25000), name="arbitrary")
 
